@@ -20,7 +20,7 @@
 
 #define MAXL 16640
 typedef struct {
-        uint8_t src[MAXL + 64], dst[MAXL + 64], iv[32], aad[32], tag[64], niv[16];
+        uint8_t src[MAXL + 64], dst[MAXL + 64], iv[96], aad[32], tag[64], niv[16];
 } wb_t;
 static wb_t *W, *Wd;
 static IMB_MGR *M[NVARIANTS];
@@ -75,7 +75,7 @@ static void
 inputs(wb_t *b, uint32_t nb, int ivc, uint32_t len)
 {
         fill_rand(b->src, nb + 64, 4000 + nb);
-        fill_rand(b->iv, 32, 4100 + (uint64_t) ivc);
+        fill_rand(b->iv, sizeof b->iv, 4100 + (uint64_t) ivc);
         fill_rand(b->aad, 32, 4200);
         if (ivc == 1) /* counter about to carry out of the low byte / low word */
                 memset(b->iv + 8, 0xff, 8);
@@ -214,8 +214,10 @@ sweep_row(long item, void *arg)
                         if (!alg_len_ok(g_a, len) || span(len) > MAXL)
                                 continue;
                         size_t nb = span(len);
-                        for (int ivc = 0; ivc < 3; ivc++) {
+                        for (int ivc = 0; ivc < 5; ivc++) { /* 3, 4: GCM with a 16- / 60-byte IV (J0 derived by GHASH: arbitrary counter start) */
                                 if (ivc && (!A->ivlens[0] || li % 7))
+                                        continue;
+                                if (ivc >= 3 && A->family != F_GCM)
                                         continue;
                                 int st0 = 0, e0 = 0, first = -1;
                                 for (int v = 0; v < NVARIANTS; v++) {
@@ -225,6 +227,7 @@ sweep_row(long item, void *arg)
                                         inputs(b, (uint32_t) nb, ivc, len);
                                         item_t it;
                                         mk(&it, b, v, g_dir, len);
+                                        it.ivlen = ivc == 3 ? 16 : ivc == 4 ? 60 : 0;
                                         int e, st = run(v, &it, &e, 0);
                                         n_eval++;
                                         if (first < 0) {
@@ -252,7 +255,7 @@ sweep_row(long item, void *arg)
                                         if (!M[v])
                                                 continue;
                                         wb_t *d = Wd;
-                                        memcpy(d->iv, W[0].iv, 32);
+                                        memcpy(d->iv, W[0].iv, sizeof d->iv);
                                         memcpy(d->aad, W[0].aad, 32);
                                         memcpy(d->src, A->inplace_only ? W[0].src : W[0].dst, nb + 64);
                                         memset(d->dst, 0, nb + 64);
@@ -260,6 +263,7 @@ sweep_row(long item, void *arg)
                                         memset(d->niv, 0, 16);
                                         item_t it;
                                         mk(&it, d, v, 0, len);
+                                        it.ivlen = ivc == 3 ? 16 : ivc == 4 ? 60 : 0;
                                         int e, st = run(v, &it, &e, 0);
                                         n_dec++;
                                         if (st != IMB_STATUS_COMPLETED) {
